@@ -614,7 +614,14 @@ func (g *gen) style() style {
 }
 
 // composeTestClass plans one test class.
-func (g *gen) composeTestClass(f *File, foreign []string, shared *mplan) *cplan {
+// twinSpec: the class shares its simple name with a test class of another package; both have a helper of the
+// same name, one of them asserting, and a test that reaches an assertion (or none) only through that helper.
+type twinSpec struct {
+	helper  string
+	asserts bool
+}
+
+func (g *gen) composeTestClass(f *File, foreign []string, shared *mplan, twin *twinSpec) *cplan {
 	cp := &cplan{f: f, sty: g.style(), imports: importSets[g.r.Intn(len(importSets))], shared: shared}
 	if g.r.Chance(1, 4) {
 		cp.classAnno = g.r.Pick([]string{"@RunWith(MockitoJUnitRunner.class)", "@RunWith(PowerMockRunner.class)", "@SuppressWarnings(\"unchecked\")"})
@@ -646,6 +653,23 @@ func (g *gen) composeTestClass(f *File, foreign []string, shared *mplan) *cplan 
 		helpers = append(helpers, m)
 		nonTests = append(nonTests, mp)
 	}
+	var twinHelper *Method
+	if twin != nil {
+		m := &Method{Name: twin.helper, Role: RoleHelper, Profile: "twin-helper"}
+		var body []stmt
+		for try := 0; try < 20; try++ {
+			body = g.composeHelper(twin.asserts)
+			if !twin.asserts || hasAssertion(&Method{Calls: collect(body)}) {
+				break
+			}
+		}
+		mp := &mplan{m: m, stmts: g.decorate(body, cp.sty)}
+		m.Calls = collect(mp.stmts)
+		mp.header = g.r.Pick([]string{"private void", "void", "protected void"}) + " " + m.Name + "()"
+		helpers = append(helpers, m)
+		nonTests = append(nonTests, mp)
+		twinHelper = m
+	}
 	for i, n := 0, g.weighted(0, 1, 1, 2); i < n; i++ {
 		m := &Method{Name: g.uniq(g.r.Pick([]string{"setUp", "tearDown", "dumpState", "waitABit", "initAll"})), Role: RoleOther, Profile: "other"}
 		if a := g.r.Pick([]string{"", "", "Before", "After", "BeforeClass", "BeforeEach", "Override", "Deprecated"}); a != "" {
@@ -669,6 +693,23 @@ func (g *gen) composeTestClass(f *File, foreign []string, shared *mplan) *cplan 
 		m.Annos, m.AnnoLayout = g.testAnnos()
 		mp := &mplan{m: m, stmts: g.decorate(g.composeTest(f.Class, m.Profile, helpers, foreign), cp.sty)}
 		mp.header = g.r.Pick([]string{"public void", "public void", "void", "public final void"}) + " " + m.Name + "()" + g.r.Pick([]string{"", "", " throws Exception", " throws InterruptedException", " throws Throwable"})
+		tests = append(tests, mp)
+	}
+	if twinHelper != nil {
+		// the test whose only way to an assertion (if any) is the helper that the same-named class also has
+		m := &Method{Name: g.testMethodName(), Role: RoleTestMethod, Profile: "twin"}
+		m.Annos, m.AnnoLayout = g.testAnnos()
+		b := newBody()
+		b.add(g.helperCall(f.Class, twinHelper))
+		g.addForms(b, plainForms, "plain", g.weighted(1, 1, 2), false, false)
+		g.addPrints(b, g.weighted(0, 0, 1), false)
+		body := g.guard(b.stmts, helpers)
+		shuffled := make([]stmt, len(body))
+		for i, j := range g.r.Perm(len(body)) {
+			shuffled[i] = body[j]
+		}
+		mp := &mplan{m: m, stmts: g.decorate(shuffled, cp.sty)}
+		mp.header = g.r.Pick([]string{"public void", "void"}) + " " + m.Name + "()" + g.r.Pick([]string{"", " throws Exception"})
 		tests = append(tests, mp)
 	}
 	// helpers / other methods before, between or after the tests
@@ -727,6 +768,7 @@ func Generate(r *run.Rand) *Tree {
 	type pending struct {
 		f      *File
 		shared *mplan
+		twin   *twinSpec
 	}
 	var tests []pending
 	var mains []*File
@@ -764,6 +806,27 @@ func Generate(r *run.Rand) *Tree {
 		tests = append(tests, p)
 		t.Files = append(t.Files, f)
 	}
+	// two test classes with the same simple name in different packages (their files would collide in the flat layout)
+	if t.Layout != "flat" && g.r.Chance(3, 10) {
+		a := g.r.Intn(len(basePackages))
+		b := g.r.Intn(len(basePackages) - 1)
+		if b >= a {
+			b++
+		}
+		class := classBases[bases[nTest+nMain]] + g.r.Pick([]string{"Test", "Test", "Tests"})
+		helper := g.uniq("helperTwin")
+		firstAsserts := g.r.Bool()
+		for k, pkg := range []string{basePackages[a], basePackages[b]} {
+			f := &File{Package: pkg, Role: RoleTestByName, Class: class}
+			if t.Layout == "nested" {
+				f.RelPath = pkgPath(pkg) + "/" + class + ".java"
+			} else {
+				f.RelPath = module + "src/test/java/" + pkgPath(pkg) + "/" + class + ".java"
+			}
+			tests = append(tests, pending{f: f, twin: &twinSpec{helper: helper, asserts: (k == 0) == firstAsserts}})
+			t.Files = append(t.Files, f)
+		}
+	}
 	for i := 0; i < nMain; i++ {
 		base := classBases[bases[nTest+i]]
 		f := &File{Role: RoleMain, Package: pkgs[g.r.Intn(len(pkgs))], Class: base + g.r.Pick([]string{"", "Service", "Repo", "Util", "Tester", "Contest"})}
@@ -794,7 +857,7 @@ func Generate(r *run.Rand) *Tree {
 				}
 			}
 		}
-		cp := g.composeTestClass(p.f, foreign, p.shared)
+		cp := g.composeTestClass(p.f, foreign, p.shared, p.twin)
 		cp.imports = append(append([]string{}, cp.imports...), extraImports...)
 		plans = append(plans, cp)
 	}
